@@ -13,7 +13,7 @@ def _cfg_worker(args):
     sys.setrecursionlimit(20000)
     from .context import Ctx
     from .absint import PyRaise, Unsupported
-    from .rules.cfg_rules import tealer_cfg, reference_cfg
+    from .rules.cfg_rules import tealer_cfg, reference_cfg, by_line
     from . import gen
     ctx = Ctx(root)
     out, n = [], 0
@@ -30,12 +30,13 @@ def _cfg_worker(args):
             out.append((name, src, "ANALYSIS", str(e), ""))
             continue
         ref = reference_cfg(ctx, src)
-        gb = {i: {"lines": v["lines"], "next": v["next"], "prev": v["prev"]} for i, v in got["blocks"].items()}
-        rb = {i: {"lines": v["lines"], "next": v["next"], "prev": v["prev"]} for i, v in ref["blocks"].items()}
+        problems = got["problems"]
+        got, ref = by_line(got), by_line(ref)
+        gb, rb = got["blocks"], ref["blocks"]
         if gb != rb:
             out.append((name, src, "blocks and edges", gb, rb))
-        elif got["problems"]:
-            out.append((name, src, "well-formed", got["problems"][:3], []))
+        elif problems:
+            out.append((name, src, "well-formed", problems[:3], []))
         elif got["subs"] != ref["subs"]:
             out.append((name, src, "subroutines", got["subs"], ref["subs"]))
         elif got["retained_lines"] != ref["retained_lines"]:
